@@ -8,7 +8,7 @@ for fx in /verif/fixtures/C*; do
   comp=ok; (cd $scratch && go build ./... 2>/dev/null) || comp=NOCOMPILE
   tests=$(/verif/tools/repotest.sh $scratch 2>/dev/null | tail -1)
   vd=$(mktemp -d /tmp/mutv.XXXXXX); cp /verif/known_findings.json $vd/
-  out=$(/verif/bin/argverif -repo $scratch -verif $vd -property $id 2>&1); rc=$?
+  out=$(${ARGVERIF:-/verif/bin/argverif} -repo $scratch -verif $vd -property $id 2>&1); rc=$?
   rules=$(echo "$out" | grep -oE "rule=[A-Z0-9-]+" | sort -u | sed 's/rule=//' | tr '\n' ',')
   echo "$name compile=$comp tests[$tests] rc=$rc rules=$rules"
   rm -rf $scratch $vd
